@@ -1,6 +1,7 @@
 package rules
 
 import (
+	"go/token"
 	"go/ast"
 	"go/types"
 	"strings"
@@ -374,6 +375,21 @@ func c21(x *Ctx) {
 							return eng.False
 						}
 						return eng.True
+					}
+				}
+				// the same test written on the length: len(v) > 0, len(v) != 0, len(v) == 0, len(v) >= 1, len(v) < 1
+				if b, ok := v.(*ssa.BinOp); ok {
+					if cl, ok := b.X.(*ssa.Call); ok {
+						if bi, ok := cl.Call.Value.(*ssa.Builtin); ok && bi.Name() == "len" && cl.Call.Args[0].Type().String() == "string" && !loadsField(cl.Call.Args[0], func(eng.FieldRef) bool { return true }) {
+							if k, ok := eng.ConstInt(b.Y); ok {
+								switch {
+								case k == 0 && (b.Op == token.GTR || b.Op == token.NEQ), k == 1 && b.Op == token.GEQ:
+									return eng.False
+								case k == 0 && (b.Op == token.EQL || b.Op == token.LEQ), k == 1 && b.Op == token.LSS:
+									return eng.True
+								}
+							}
+						}
 					}
 				}
 				return eng.Unknown
